@@ -1082,6 +1082,13 @@ class Terms(object):
         return ("elem", t)
 
     def _comp(self, t, i, n):
+        if t[0] == "item" and t[2][0] == "slice" and \
+                t[2][2] == ("const", None) and t[2][3] == ("const", None) and \
+                t[2][1][0] == "const" and isinstance(t[2][1][1], int) and \
+                not isinstance(t[2][1][1], bool) and t[2][1][1] >= 0:
+            # x[a:][i] is x[a + i]
+            return self._comp(t[1], i + t[2][1][1],
+                              n + t[2][1][1] if n >= 0 else n)
         if t[0] == "new" and t[2][0] == "list" and len(t[2]) > 1:
             # (a non-empty list display; an empty one is a list that is
             # filled later: its elements are not the display's)
@@ -1181,6 +1188,14 @@ class Terms(object):
         if isinstance(e, ast.UnaryOp):
             v = T(e.operand, node, env)
             if isinstance(e.op, ast.Not):
+                if v[0] in ("and", "or"):
+                    # not (a and b)  is  (not a) or (not b), operand by
+                    # operand and with the same short cut
+                    parts = []
+                    for x in v[1:]:
+                        nx = x[1] if x[0] == "not" else ("not", x)
+                        parts.append(nx)
+                    return ("or" if v[0] == "and" else "and",) + tuple(parts)
                 return v[1] if v[0] == "not" else ("not", v)
             if isinstance(e.op, ast.USub) and v[0] == "const" and \
                     isinstance(v[1], (int, float)):
@@ -1359,6 +1374,11 @@ class Terms(object):
             kws.append((k.arg or "**", T(k.value, node, env)))
         kws = tuple(sorted(kws, key=_key))
         args = tuple(args)
+        # math.pow(2.0, n) is 2.0 ** n (a float base: the same C pow)
+        if isinstance(f, ast.Attribute) and f.attr == "pow" and \
+                chain(f.value) == "math" and len(args) == 2 and not kws and \
+                args[0][0] == "const" and isinstance(args[0][1], float):
+            return self._binop("Pow", args[0], args[1])
         # dict views / get, whichever spelling
         if isinstance(f, ast.Name) and f.id in _ITEMS and len(args) == 1 \
                 and f.id.startswith(("iter", "view")):
